@@ -124,6 +124,10 @@ class Oracle:
             elif t.kind == "mr":
                 if t.var["answers"][r][self.table_key] != 1:
                     return False
+            elif t.kind == "numarr":
+                # numeric array as table dimension: slice k carries item k's valid counts
+                if t.var["values"][r][self.table_key] is None:
+                    return False
             # ca_items table: a context, not a restriction
         if self.needs_valid_x and self.mvar["values"][r] is None:
             return False
@@ -276,6 +280,8 @@ class Oracle:
     def xvalue(self, r, rspec=None):
         """Numeric-measure value of respondent r relevant for a cell of row `rspec`."""
         if self.mvar["type"] == "numarr":
+            if self.table is not None and self.table.kind == "numarr":
+                return self.mvar["values"][r][self.table_key]
             return self.mvar["values"][r][rspec[1]]
         return self.mvar["values"][r]
 
